@@ -185,8 +185,7 @@ class Run:
         jopts = ["-Djava.io.tmpdir=" + os.path.join(d, "jtmp")]   # TLC litters java.io.tmpdir with tlc-* directories
         if xss:
             jopts.append("-Xss%s" % xss)
-        if heap:
-            jopts.append("-Xmx%s" % heap)
+        jopts.append("-Xmx%s" % (heap or "8g"))   # (the tlc wrapper's default is 25% of the RAM per JVM; checks may run side by side)
         if jopts:
             e["JAVA_TOOL_OPTIONS"] = " ".join(jopts)
         if env:
@@ -462,6 +461,8 @@ class Run:
     # ---------------------------------------------------------------- finish
     def finish(self):
         cov = self.cov
+        if getattr(self, "pending_infra", None) and not self.violations:
+            raise Infra(self.pending_infra)
         for k, v in sorted(self.known_hits.items()):
             print("KNOWN-FINDING: property=%s %s (%d cases this run)" % (self.pid, k, v))
         cov["known_finding_hits"] = self.known_hits
